@@ -12,6 +12,8 @@ pub mod mem;
 pub mod memseq;
 #[path = "../../harness/src/model.rs"]
 pub mod model;
+#[path = "../../harness/src/c13mt.rs"]
+pub mod c13mt;
 #[path = "../../harness/src/c14.rs"]
 pub mod c14;
 #[path = "../../harness/src/c02.rs"]
@@ -76,6 +78,7 @@ fn main() {
             };
             memseq::run(prop, seed, &tier, shard, nshards)
         }
+        "c13mt" => c13mt::run(&get("prop", "C13"), seed, &tier, shard, nshards),
         "c14" => c14::run(seed, &tier, shard, nshards),
         "c02" => c02::run(seed, &tier, shard, nshards, false),
         "c17mem" => c02::run(seed, &tier, shard, nshards, true),
